@@ -25,7 +25,10 @@ QuadChecks(e) ==
       C14_mirror_invariant |-> MirrorInv(e.v, e.vmirror),
       C14_bounded        |-> Bounded(e.v) /\ Bounded(e.vswap) /\ Bounded(e.vmirror),
       C14_pure_repeat    |-> Pure(e.v, e.vagain),
-      C14_pure_history   |-> \A x \in memo : x[1] = p => x[2] = e.v]
+      \* the score depends on the piece placement and the side to move only: not on what was evaluated before,
+      \* and not on castling rights, en-passant square or move counters (companion events carry the same
+      \* placement with the rights / e.p. square dropped and other counters)
+      C14_pure_history   |-> \A x \in memo : (x[1].bd = p.bd /\ x[1].stm = p.stm) => x[2] = e.v]
 
 \* the property quantifies over valid positions: others are skipped (printed, counted by the runner)
 TQuad == /\ IsEvent("quad")
